@@ -732,7 +732,13 @@ impl<'a, 'b> G<'a, 'b> {
             self.f.vmodel = true;
         }
         let unusual = self.k.unusual;
-        let target = self.c.choose(&["m", "o.p", "o[x]", "xs[0]", "o.a.b"]);
+        let target = if unusual && self.c.chance(1, 12) {
+            // readable but not assignable in a module: must be reported, not assigned to
+            self.f.unusual("vmodel-target-eval-or-arguments");
+            self.c.choose(&["eval", "arguments", "(eval)"])
+        } else {
+            self.c.choose(&["m", "o.p", "o[x]", "xs[0]", "o.a.b"])
+        };
         let val_kind = self.c.weighted(&[
             8,
             4,
